@@ -256,7 +256,7 @@ Section Equiv.
     Proof.
       induction es as [|e r IH]; intros acc s; [reflexivity|].
       destruct (is_starred e) eqn:Es.
-      - destruct e; try discriminate. cbn [ps_set_tail py_set_more]. unfold bind. ev2. mcase. mcase. mcase. apply IH.
+      - destruct e; try discriminate. cbn [ps_set_tail py_set_more]. unfold bind. ev2. mcase. mcase. mcase. mcase. apply IH.
       - rewrite set_tail_nonstar, set_more_nonstar by assumption. unfold bind. ev2. mcase. mcase. apply IH.
     Qed.
 
